@@ -141,6 +141,12 @@ package websockets
 // data: the messages of the request are handed to their sessions in array order, stopping at the first failure.
 //@ func createShimChannel$4 props(C11,C12,C07)
 //@   requires w != nil && r != nil && r.Body != nil && r.Header != nil && rwWrites[w] == 0
+// sessions leave the table only through a close call or a poll that found the connection closed: a data call, whatever
+// it carries, must leave every session reachable for the calls that follow
+//@   call (*sync.Map).Delete
+//@     assert[C12:data-calls-never-drop-a-session] false
+//@   call (*sync.Map).Store
+//@     assert[C12:data-calls-never-register-a-session] false
 //@   ghost sent int = 0
 //@   ghost failed bool = false
 //@   call (*sync.Map).Load
